@@ -282,7 +282,29 @@ func ruleR34(p *Prog) []Ob {
 						verbatim = false
 					}
 				}
-				if verbatim {
+				// the other settings that are part of a Segment's identity (everything but the offset
+				// and what is derived from it): inside a method of a Segment they are the receiver's
+				// own; nowhere are they a literal
+				flagBad := ""
+				for i, q := range ctor.Params {
+					if i == dirIdx || i >= len(c.Call.Args) {
+						continue
+					}
+					if bt, ok := q.Type().Underlying().(*types.Basic); !ok || bt.Kind() != types.Bool {
+						continue
+					}
+					a := canon(c.Call.Args[i])
+					if _, isConst := a.(*ssa.Const); isConst {
+						flagBad = fmt.Sprintf("the setting %s is the literal %s", q.Name(), a.String())
+					} else if rn := recvNamed(fn); rn == r.Segment || rn == r.RewriteSegment {
+						if f, base := loadedField(a); f == nil || (namedOf(derefPtr(base.Type())) != r.Segment && namedOf(derefPtr(base.Type())) != r.RewriteSegment) {
+							flagBad = fmt.Sprintf("the setting %s is not the source segment's own", q.Name())
+						}
+					}
+				}
+				if verbatim && flagBad != "" {
+					ob.Status, ob.Msg = Violated, "a Segment is built with a setting that is not its source's ("+flagBad+"): Segment values are compared with == to decide whether a rewrite replaces its source in place; a rewrite that differs in a setting is taken for another segment, and the files just swapped in are removed"
+				} else if verbatim {
 					ob.Status, ob.Msg = Discharged, "the directory of the new Segment is taken verbatim from "+what
 				} else {
 					ob.Status, ob.Msg = Violated, "a Segment is built from a recomputed directory string ("+arg.String()+"): Segment values are compared with == to decide whether a rewrite replaces its source in place, and two spellings of one directory make that comparison say 'different files'"
@@ -1647,6 +1669,9 @@ func ruleR39(p *Prog) []Ob {
 				n++
 				k++
 				ob := Ob{Rule: "R39", Inst: fmt.Sprintf("params-from-options:%s#%d", funcLabel(fn), k), Props: []string{"C13", "C11"}, Pos: p.at(st), Func: funcLabel(fn), Nontrivial: true}
+				if fn.Name() == "Migrate" {
+					ob.Props = []string{"C13", "C11", "C17"}
+				}
 				var bad []string
 				for _, o := range uniqSorted(origin(st.Val, fn, 0)) {
 					if o != "Options."+w && o != "Params."+f.Name() {
@@ -1690,7 +1715,7 @@ func (p *Prog) statFresh() []Ob {
 		if res.Len() != 2 || namedOf(res.At(0).Type()) != st {
 			continue
 		}
-		ob := Ob{Rule: "R36", Inst: "stat-fresh:" + funcLabel(fn), Props: []string{"C13"}, Pos: p.posStr(fn.Pos()), Func: funcLabel(fn), Nontrivial: true}
+		ob := Ob{Rule: "R36", Inst: "stat-fresh:" + funcLabel(fn), Props: []string{"C13", "C15"}, Pos: p.posStr(fn.Pos()), Func: funcLabel(fn), Nontrivial: true}
 		var bad []string
 		for _, rt := range returnsOf(fn) {
 			if ea.isFailureReturn(fn, rt) {
@@ -5243,4 +5268,313 @@ func (p *Prog) dirIsNotAPrefix() []Ob {
 		ob.Status, ob.Msg = Discharged, fmt.Sprintf("%d string operation(s) on paths, none pairs a segment's file path with its directory string", n)
 	}
 	return []Ob{ob}
+}
+
+// ---------------------------------------------------------------------------
+// R20i QUERY-STATE-IS-LIFECYCLE-STATE (C03, C04, C09, C10, C15): below the log object, too, a query
+// keeps nothing of its own. What a query path may write in a segment reader are the lazily loaded
+// parts that the reader's Close / GC know about (and therefore drop when the segment's files are
+// replaced); the index objects are not written from a query path at all.
+func (p *Prog) queryStateIsLifecycleState() []Ob {
+	r := p.R
+	ob := Ob{Rule: "R20", Inst: "i:query-state-is-lifecycle-state", Props: []string{"C03", "C04", "C09", "C10", "C15"}, Pos: "-", Nontrivial: true}
+	queries := map[string]bool{"Consume": true, "ConsumeByKey": true, "Get": true, "GetByKey": true, "OffsetByKey": true, "GetByTime": true, "OffsetByTime": true, "NextOffset": true, "Stat": true, "Size": true}
+	// fields of the segment reader its Close / GC refer to
+	lifecycle := map[*types.Var]bool{}
+	nLife := 0
+	for _, nm := range []string{"Close", "GC"} {
+		m := p.methodOf(r.SegReader, nm)
+		if m == nil {
+			continue
+		}
+		nLife++
+		seen := map[*ssa.Function]bool{}
+		var walk func(f *ssa.Function)
+		walk = func(f *ssa.Function) {
+			if f == nil || seen[f] || f.Blocks == nil || recvNamed(f) != r.SegReader {
+				return
+			}
+			seen[f] = true
+			for _, b := range f.Blocks {
+				for _, ins := range b.Instrs {
+					if fa, ok := ins.(*ssa.FieldAddr); ok && namedOf(derefPtr(fa.X.Type())) == r.SegReader {
+						lifecycle[fieldVarOfAddr(fa)] = true
+					}
+					if c, ok := ins.(*ssa.Call); ok {
+						walk(c.Common().StaticCallee())
+					}
+				}
+			}
+		}
+		walk(m)
+	}
+	if nLife == 0 || r.SegReader == nil {
+		ob.Status, ob.Msg = Undecided, "the segment reader's Close / GC were not found"
+		return []Ob{ob}
+	}
+	// the field of a role object an address lies in, unless the object was made in this function
+	roleField := func(addr ssa.Value) (*types.Var, *types.Named) {
+		var f *types.Var
+		for {
+			fa, ok := addr.(*ssa.FieldAddr)
+			if !ok {
+				break
+			}
+			f = fieldVarOfAddr(fa)
+			n := namedOf(derefPtr(fa.X.Type()))
+			if n == r.SegReader || n == r.ReaderIndex || n == r.HeadIndex {
+				if _, fresh := fa.X.(*ssa.Alloc); fresh {
+					return nil, nil
+				}
+				return f, n
+			}
+			addr = fa.X
+		}
+		return nil, nil
+	}
+	nFns, nWrites := 0, 0
+	var bad []string
+	for fn, api := range p.apiReach() {
+		isQ := false
+		for a := range api {
+			if queries[a] {
+				isQ = true
+			}
+		}
+		if !isQ || !srcFunc(fn) {
+			continue
+		}
+		nFns++
+		for _, b := range fn.Blocks {
+			for _, ins := range b.Instrs {
+				var addr ssa.Value
+				switch x := ins.(type) {
+				case *ssa.Store:
+					addr = x.Addr
+				case *ssa.Call:
+					nm := calleeName(x.Common())
+					if strings.HasPrefix(nm, "(*sync/atomic.") && !strings.HasSuffix(nm, ").Load") && len(x.Call.Args) > 0 {
+						addr = x.Call.Args[0]
+					}
+				}
+				if addr == nil {
+					continue
+				}
+				f, n := roleField(addr)
+				if f == nil {
+					continue
+				}
+				nWrites++
+				var api1 string
+				for a := range api {
+					if queries[a] && (api1 == "" || a < api1) {
+						api1 = a
+					}
+				}
+				switch {
+				case n == r.SegReader && !lifecycle[f]:
+					bad = append(bad, fmt.Sprintf("%s: %s (on the path of Log.%s) writes %s, which the reader's Close / GC never look at", p.at(ins), funcLabel(fn), api1, p.fieldLabel(f)))
+				case n != r.SegReader:
+					bad = append(bad, fmt.Sprintf("%s: %s (on the path of Log.%s) writes %s of an index object", p.at(ins), funcLabel(fn), api1, p.fieldLabel(f)))
+				}
+			}
+		}
+	}
+	switch {
+	case nFns < 10:
+		ob.Status, ob.Msg = Undecided, "the functions reachable from the query methods of the log were not found"
+	case len(bad) > 0:
+		sort.Strings(bad)
+		ob.Pos = strings.SplitN(bad[0], ": ", 2)[0]
+		ob.Status, ob.Msg, ob.Path = Violated, "a query leaves something behind in a segment's reader or index object that nothing invalidates when the segment is rewritten, extended or closed: a later answer is made from it instead of from the files", uniqStrings(bad)
+	default:
+		ob.Status, ob.Msg = Discharged, fmt.Sprintf("%d functions on query paths; their %d writes to segment readers all go to state the reader's Close / GC manage; none to an index object", nFns, nWrites)
+	}
+	return []Ob{ob}
+}
+
+// ---------------------------------------------------------------------------
+// R3d HEAD-IS-LAST (C03, C04, C02, C12): wherever a method of the log installs a new head writer, the
+// reader list ends with that writer's reader when the method returns: every lookup takes the last
+// reader for the head (NextOffset, the empty-head cases, the roll-over).
+func (p *Prog) headIsLast() []Ob {
+	r := p.R
+	var obs []Ob
+	// the last element a list value ends with: append(list, ..., X) or []T{..., X}
+	lastOfArray := func(al *ssa.Alloc) ssa.Value {
+		at, ok := derefPtr(al.Type()).Underlying().(*types.Array)
+		if !ok {
+			return nil
+		}
+		var last ssa.Value
+		for _, ref := range *al.Referrers() {
+			ia, ok := ref.(*ssa.IndexAddr)
+			if !ok {
+				continue
+			}
+			k, isK := constInt(ia.Index)
+			if !isK || k != at.Len()-1 {
+				continue
+			}
+			for _, r2 := range *ia.Referrers() {
+				if st, ok := r2.(*ssa.Store); ok && st.Addr == ssa.Value(ia) {
+					last = st.Val
+				}
+			}
+		}
+		return last
+	}
+	lastElem := func(v ssa.Value) ssa.Value {
+		if c, ok := v.(*ssa.Call); ok && isBuiltinCall(c.Common(), "append") && len(c.Call.Args) == 2 {
+			v = c.Call.Args[1]
+		}
+		if sl, ok := v.(*ssa.Slice); ok {
+			if al, ok := sl.X.(*ssa.Alloc); ok {
+				return lastOfArray(al)
+			}
+		}
+		return nil
+	}
+	isLastIndex := func(v ssa.Value) bool {
+		bo, ok := stripConv(v).(*ssa.BinOp)
+		if !ok || bo.Op != token.SUB {
+			return false
+		}
+		k, isK := constInt(bo.Y)
+		c, isC := bo.X.(*ssa.Call)
+		return isK && k == 1 && isC && isBuiltinCall(c.Common(), "len")
+	}
+	for _, fn := range p.Funcs {
+		if !srcFunc(fn) || (recvNamed(fn) != r.Impl && fn != r.Open) {
+			continue
+		}
+		// the writers installed here
+		var writers []ssa.Value
+		var wst ssa.Instruction
+		var wsts []ssa.Instruction
+		for _, b := range fn.Blocks {
+			for _, ins := range b.Instrs {
+				if st, ok := ins.(*ssa.Store); ok {
+					if fa, ok := st.Addr.(*ssa.FieldAddr); ok && fieldVarOfAddr(fa) == r.ImplWriter && namedOf(derefPtr(fa.X.Type())) == r.Impl {
+						if _, isNil := st.Val.(*ssa.Const); !isNil {
+							writers = append(writers, canon(st.Val))
+							wst = st
+							wsts = append(wsts, st)
+						}
+					}
+				}
+			}
+		}
+		if len(writers) == 0 {
+			continue
+		}
+		isHeadReader := func(x ssa.Value) bool {
+			f, base := loadedField(canon(x))
+			if f != r.HWReader || base == nil {
+				return false
+			}
+			for _, w := range writers {
+				if canon(base) == w {
+					return true
+				}
+			}
+			return false
+		}
+		// updates of what the list ends with
+		type upd struct {
+			ins  ssa.Instruction
+			good bool
+		}
+		var upds []upd
+		for _, b := range fn.Blocks {
+			for _, ins := range b.Instrs {
+				st, ok := ins.(*ssa.Store)
+				if !ok {
+					continue
+				}
+				switch a := st.Addr.(type) {
+				case *ssa.FieldAddr:
+					if fieldVarOfAddr(a) != r.ImplReaders || namedOf(derefPtr(a.X.Type())) != r.Impl {
+						continue
+					}
+					if le := lastElem(st.Val); le != nil {
+						upds = append(upds, upd{st, isHeadReader(le)})
+					}
+				case *ssa.IndexAddr:
+					if f, _ := loadedField(canon(a.X)); f == r.ImplReaders && isLastIndex(a.Index) {
+						upds = append(upds, upd{st, isHeadReader(st.Val)})
+					}
+				}
+			}
+		}
+		ob := Ob{Rule: "R3", Inst: "d:head-is-last:" + funcLabel(fn), Props: []string{"C03", "C04", "C02", "C12"}, Pos: p.at(wst), Func: funcLabel(fn), Nontrivial: true}
+		good := map[ssa.Instruction]bool{}
+		nGood := 0
+		for _, u := range upds {
+			if u.good {
+				good[u.ins] = true
+				nGood++
+			}
+		}
+		var bad []string
+		if nGood == 0 {
+			bad = append(bad, p.at(wst)+": a head writer is installed but its reader is never put at the end of the reader list")
+		}
+		for _, u := range upds {
+			if u.good {
+				continue
+			}
+			// only on paths that install a writer at all
+			onWriterPath := false
+			for _, w := range wsts {
+				if canReach(w, u.ins) || canReach(u.ins, w) {
+					onWriterPath = true
+				}
+			}
+			if !onWriterPath {
+				continue
+			}
+			// can the function return from here without a later good update?
+			seen := map[*ssa.BasicBlock]bool{}
+			escapes := false
+			var walk func(b *ssa.BasicBlock, from int)
+			walk = func(b *ssa.BasicBlock, from int) {
+				for i := from; i < len(b.Instrs); i++ {
+					if good[b.Instrs[i]] {
+						return
+					}
+					if rt, ok := b.Instrs[i].(*ssa.Return); ok {
+						if !p.ErrAtomsCached().isFailureReturn(fn, rt) {
+							escapes = true
+						}
+						return
+					}
+				}
+				for _, s := range b.Succs {
+					if !seen[s] {
+						seen[s] = true
+						walk(s, 0)
+					}
+				}
+			}
+			for i, bi := range u.ins.Block().Instrs {
+				if bi == u.ins {
+					walk(u.ins.Block(), i+1)
+				}
+			}
+			if escapes {
+				bad = append(bad, p.at(u.ins)+": after this update the reader list ends with a reader that is not the new head writer's, and the method can return like that")
+			}
+		}
+		if len(bad) > 0 {
+			ob.Status, ob.Msg, ob.Path = Violated, "the reader list does not end with the head: the lookups that take its last reader for the head (next offset, the newest message, the roll-over, where a cursor that caught up continues) work on a closed segment, and the segment walk meets offsets out of order", uniqSorted(bad)
+		} else {
+			ob.Status, ob.Msg = Discharged, fmt.Sprintf("%d update(s) of the list's end, the last one on every returning path puts the installed writer's reader there", len(upds))
+		}
+		obs = append(obs, ob)
+	}
+	if len(obs) == 0 {
+		obs = append(obs, Ob{Rule: "R3", Inst: "d:head-is-last", Props: []string{"C03", "C04", "C02", "C12"}, Pos: "-", Status: Undecided, Msg: "no method of the log installs a head writer"})
+	}
+	return obs
 }
